@@ -609,7 +609,7 @@ def grid_cells(family, ck, seed, scale):
                 add('tmpl=' + lab, 'C_GetAttributeValue ' + kind, f)
         # nested templates read back into inner buffers of every small size, in every slot (the three-step protocol with honest pointers and stated sizes, but sizes the library did not suggest)
         for arr in ('CKA_WRAP_TEMPLATE', 'CKA_UNWRAP_TEMPLATE'):
-            for sizes in ([1, 1, 1, 1], [4, 4, 4, 4], [7, 7, 7, 7], [8, 0, 8, 8], [8, 1, 3, 64], [2, 8, 64, 5], [64, 64, 64, 64], [8, 1, 64, 8, 8, 8]):
+            for sizes in ([1] * 5, [4] * 5, [7] * 5, [8, 0, 8, 8, 8], [8, 1, 3, 64, 7], [2, 8, 64, 5, 8], [64] * 5, [8, 1, 64, 8, 8, 8], [8, 8, 8, 8, 8, 4, 1]):      # (the object's template has five entries)
                 def f(E, arr=arr, sizes=sizes):
                     inner = [('CKA_CLASS', E.ck.CKO_SECRET_KEY), ('CKA_EXTRACTABLE', True), ('CKA_LABEL', b'inner-label-0123456789'), ('CKA_KEY_TYPE', E.ck.CKK_AES), ('CKA_VALUE_LEN', 16)]
                     r = E.c('C_CreateObject', s=E.S, tmpl=E.T(list(K.template('aes128', label='with-nested')) + [(arr, inner)]))
